@@ -1,7 +1,7 @@
 """C07 - see DESIGN.md section 5 (deterministic transaction scheduler)."""
 from pv import conc
 
-SCEN = conc.scenarios_c07()
+SCEN = conc.scenarios_c07() + conc.scenarios_c06()
 
 META = {
     'level': 'exploration',
